@@ -110,19 +110,23 @@ def _family_tables(model: Model, L: RuleResult):
 def _default_merge(model: Model, O: RuleResult):
     """set_default_option(defopt, opt) is `copy of defopt, updated with opt itself`: every key the caller passes wins, whatever its value
     (a filter such as `if v is not None` silently replaces an explicit None by the default / drops it from a custom method's kwargs)."""
+    merge_semantics(model, O)
+
+
+def merge_semantics(model: Model, O: RuleResult):
+    """decided by abstract evaluation over symbolic dictionaries (domains/dictsem.py), so any spelling of the merge is accepted"""
+    from ..domains import dictsem
     f = model.func(MISC, "set_default_option")
     d, o = f.params()[:2]
-    ups = [c for c in own_nodes(f.node) if isinstance(c, ast.Call) and isinstance(c.func, ast.Attribute) and c.func.attr == "update"]
-    cps = [s_ for s_ in own_nodes(f.node) if isinstance(s_, ast.Assign) and isinstance(s_.value, ast.Call) and ast.unparse(s_.value.func) in ("copy.copy", "dict", "copy.deepcopy")
-           and ast.unparse(s_.value.args[0]) == d]
-    rets = [r for r in own_nodes(f.node) if isinstance(r, ast.Return)]
-    ok = len(ups) == 1 and len(ups[0].args) == 1 and isinstance(ups[0].args[0], ast.Name) and ups[0].args[0].id == o and len(cps) == 1 and \
-        ast.unparse(ups[0].func.value) == ast.unparse(cps[0].targets[0]) and len(rets) == 1 and ast.unparse(rets[0].value) == ast.unparse(cps[0].targets[0])
-    if ok:
-        O.ok(f.fq, "set_default_option returns copy(defopt) updated with opt itself (no key or value is filtered)")
+    try:
+        problems = dictsem.check_merge(f.node, d, o)
+    except dictsem.Unsupported as e:
+        raise AnalysisError("set_default_option: body cannot be interpreted over abstract dictionaries (%s)" % e)
+    if not problems:
+        O.ok(f.fq, "set_default_option returns a fresh dictionary = defaults overridden by the caller's options (explicit None wins, no key filtered), "
+             "arguments untouched - on all %d abstract scenarios" % len(dictsem.merge_scenarios()))
     else:
-        O.bad(f, ups[0] if ups else f.node, "set_default_option must be `res = copy(defopt); res.update(opt); return res`: filtering the caller's options changes what an "
-              "implementation (built-in or custom) receives")
+        O.bad(f, f.node, "set_default_option must return a fresh `defaults updated with the caller's options`: %s" % problems[0], what="; ".join(problems)[:600])
 
 
 def _minimize_kinds(model: Model, K: RuleResult):
